@@ -138,6 +138,14 @@ func (c *FnCtx) doCall(fr *frame, st *State, ca callArgs, pos token.Pos, rt type
 	switch {
 	case ca.invoke != nil:
 		key = ca.invoke.FullName()
+		// a contract filed under the static interface type of the receiver
+		// (e.g. (hash.Hash).Write, whose method is declared in io.Writer) wins
+		if ca.recv != nil && ca.recv.T != nil {
+			alt := "(" + types.TypeString(ca.recv.T, nil) + ")." + ca.invoke.Name()
+			if alt != key && c.eng.contractFor(alt) != nil {
+				key = alt
+			}
+		}
 	case ca.fn != nil:
 		callee = ca.fn
 		key = callee.String()
